@@ -7,8 +7,9 @@
    stream terms are equal must give bit-identical outputs, seeded calls with different seeds
    different outputs.
 2. SimCond.tla: TLC checks the transcription of the truncated Gaussian draw (zones partition the
-   interval, for every ordering class of the bounds), the Gibbs step machine (InBounds at every
-   step; the burn-in decay as coded is checked too and TLC's counterexample is reported), the
+   interval and the value stays within the bounds, for every ordering class of the bounds), the
+   Gibbs step machine (InBounds at every step, for the intended burn-in decay and for the decay
+   as coded; a refutation by TLC is reported), the
    exactness of the conditioning for every rank map, the storage layouts of the Gaussian values
    between Gibbs sampler and turning bands, the lithotype rules; it emits the case catalogue with
    the expectations.  Each case is replayed on the real library and compared as the spec says.
@@ -54,7 +55,7 @@ def sim_call(p, seed, fail=False):
         if fail:
             c.update(noneigh=True)
     elif p == "simfft":
-        c = {"op": "simfft", "nbsimu": 1, "seed": seed, "model": "biv" if fail else "sph"}
+        c = {"op": "simfft", "nbsimu": 2, "seed": seed, "model": "biv" if fail else "sph"}
     elif p in ("spde", "spdec"):
         c = {"op": "spde", "nbsimu": -1 if fail else 2, "cond": p == "spdec", "data": D4}
     elif p == "gibbs":
@@ -244,17 +245,21 @@ def cond_part(ck, tier, scripts, expect):
         raise Broken("Gibbs step machine (intended semantics) violates InBounds:\n" + resg.violation)
     ck.add("states", resg.distinct)
     ck.add("transitions", resg.generated)
+    # the decay AS CODED (until /repo 65d897251 TLC refuted InBounds on it: nburn = 0 gave a 0/0 ratio and an
+    # unconstrained first sweep; the transcription follows the repaired code and must now satisfy the invariant)
     cfga = cond_cfg(ck, "gibbs_ascoded.cfg", ["gibbs-ascoded"], "quick", "INVARIANT Inv_Gibbs")
-    resa = vlib.run_tlc("MC_SimCond", cfga, workers=1, timeout=3000)
+    resa = vlib.run_tlc("MC_SimCond", cfga, workers=min(vlib.NCPU, 6), timeout=3000)
     ck.cov["gibbs_machine_states"] = resg.distinct
-    if resa.violation and "Inv_Gibbs is violated" in resa.violation:
+    ck.cov["gibbs_ascoded_refuted"] = bool(resa.violation)
+    if resa.violation:
         tail = [l for l in resa.violation.splitlines() if l.startswith("/\\ st =") or "nburn" in l]
-        ck.cov["model_note_gibbs_decay"] = ("TLC refutes InBounds on the burn-in decay as coded (AGibbs::_getBoundsDecay): with nburn = 0 "
-                                            "the ratio iter/nburn is 0/0 at the first sweep, the bounds become undefined and the draw is "
-                                            "unconstrained; counterexample state: " + " ".join(tail)[-400:])
-        ck.cov["gibbs_ascoded_refuted"] = True
+        ck.cov["model_note_gibbs_decay"] = ("TLC refutes InBounds on the burn-in decay as transcribed from the code "
+                                            "(AGibbs::_getBoundsDecay); counterexample state: " + " ".join(tail)[-400:])
     else:
-        ck.cov["gibbs_ascoded_refuted"] = False
+        ck.add("states", resa.distinct)
+        ck.add("transitions", resa.generated)
+        ck.cov["model_note_gibbs_decay"] = ("the burn-in decay as coded satisfies InBounds (before /repo commit 65d897251 TLC refuted it: "
+                                            "nburn = 0 gave ratio 0/0 and an unconstrained first sweep; the nburn = 0 cases stay in the catalogue)")
     log("[C13] Gibbs machine: %d states (intended: invariant holds) in %.1fs; as coded refuted by TLC: %s" %
         (resg.distinct, resg.wall, ck.cov["gibbs_ascoded_refuted"]))
 
@@ -548,9 +553,6 @@ def run(tier):
     td = os.path.join(ck.work, "trace")
     os.makedirs(td)
     vlib.write_ndjson(sp, scripts)
-    if os.environ.get("C13_KEEP"):
-        import shutil
-        shutil.copy(sp, os.environ["C13_KEEP"])
     r = vlib.run_harness(exe, [sp, op, min(vlib.NCPU, 8), td], timeout=3000, env={"OMP_NUM_THREADS": "1"})
     stats = json.loads(r.stderr.strip().splitlines()[-1])
     obs = {o["id"]: o for o in vlib.read_ndjson(op)}
